@@ -219,3 +219,111 @@ def logical_file_split(n: int, t1: int, t2: int, t3: int, t4: int, g0: bool, vr_
     tokens = ['G' if g0 else 'F'] + [names[t] for t in (t1, t2, t3, t4)][:n]
     with mark.untraced():
         return _split(tokens, vr_each)
+
+
+# ---------------------------------------------------------------------------------------------------- a table that fills the largest visible record
+
+BIG_VR = [16384, 16382, 8192, 16380]        # the RP66V1 maximum (2.3.6.5), just below it, a common size
+
+
+def _big_table(k, tl, second, two_segments):
+    """FILE-HEADER and ORIGIN in one visible record, then a PARAMETER table whose single segment (or two segments) fills a visible record of
+    exactly BIG_VR[k] bytes - a long ASCII value - then optionally a second logical file."""
+    def payload(n):
+        return F.eflr(b'PARAMETER', [(b'LONG-NAME', F.ASCII), (b'VALUES', E.UNORM)],
+                      [((2, 0, b'BIG'), [[bytes([65 + i % 23 for i in range(n)])], [300, 301]]), ((2, 0, b'P1'), [[b'short <&>'], [7]])])
+    extra = 2 if tl else 0
+    room = BIG_VR[k] - 4 - (2 if two_segments else 1) * (4 + extra)          # payload bytes that fit
+    n = room - len(payload(0))
+    while len(payload(n)) > room:
+        n -= 1
+    pl = payload(n)
+    if len(pl) != room:
+        return True            # (cannot happen: one more value byte is one more payload byte below the next UVARI size)
+    recs = [F.record(True, 0, F.file_header(1), new_vr=True), F.record(True, 1, F.origin())]
+    if two_segments:
+        recs.append(F.record_split(True, 5, pl, 4000, trailing=tl, new_vr=True))
+    else:
+        recs.append((True, 5, [dict(payload=pl, pad=0, checksum=False, trailing=tl, encrypted=False, new_vr=True)]))
+    if second:
+        recs.append(F.record(True, 0, F.file_header(2), new_vr=True))
+        recs.append(F.record(True, 1, F.origin(b'SECOND')))
+    data, layout = F.build(recs)
+    if ((data[layout[2][0]] << 8) | data[layout[2][0] + 1]) != BIG_VR[k]:
+        return True            # (cannot happen: the builder is exact)
+    with LogicalFile.LogicalIndex(SymFile(data)) as li:
+        mark.hit()
+        if len(li) != (2 if second else 1):
+            return False
+        lf = li.logical_files[0]
+        if [pe.eflr.set.type for pe in lf.eflrs] != [b'FILE-HEADER', b'ORIGIN', b'PARAMETER']:
+            return False
+        if second and [pe.eflr.set.type for pe in li.logical_files[1].eflrs] != [b'FILE-HEADER', b'ORIGIN']:
+            return False
+        pe = lf.eflrs[2]
+        if (pe.lrsh_position.vr_position, pe.lrsh_position.lrsh_position) != (layout[2][0], layout[2][1]):
+            return False
+        t = pe.eflr
+        if [a.label for a in t.template.attrs] != [b'LONG-NAME', b'VALUES'] or [(o.name.O, o.name.C, o.name.I) for o in t.objects] != [(2, 0, b'BIG'), (2, 0, b'P1')]:
+            return False
+        big, p1 = t.objects
+        if [(a.count, a.rep_code, a.units, a.value) for a in big.attrs] != [(1, F.ASCII, b'', [bytes([65 + i % 23 for i in range(n)])]), (2, E.UNORM, b'', [300, 301])]:
+            return False
+        if [(a.count, a.rep_code, a.units, a.value) for a in p1.attrs] != [(1, F.ASCII, b'', [b'short <&>']), (1, E.UNORM, b'', [7])]:
+            return False
+    return True
+
+
+def big_table(k: int, tl: bool, second: bool, two_segments: bool) -> bool:
+    """
+    pre: 0 <= k <= 3
+    post: _
+    """
+    k, tl, second, two_segments = mark.pick(k, 0, 3), mark.pickb(tl), mark.pickb(second), mark.pickb(two_segments)
+    with mark.untraced():
+        return _big_table(k, tl, second, two_segments)
+
+
+# ---------------------------------------------------------------------------------------------------- the three kinds of set
+
+SET_ROLES = ['SET', 'RSET', 'RDSET']        # set, replacement set, redundant set (RP66V1 3.2.2.1): all three open a table
+
+
+def _set_kinds(r1, r2, named, both):
+    """FILE-HEADER, ORIGIN, a PARAMETER table opened by a component of role r1 (named or not) and optionally a TOOL table of role r2."""
+    recs = [F.record(True, 0, F.file_header(1)), F.record(True, 1, F.origin())]
+    prm = [((2, 0, b'P0'), [[b'param <&>'], [300, 301]]), ((2, 0, b'P1'), [[b'x'], [7]])]
+    recs.append(F.record(True, 5, F.eflr(b'PARAMETER', [(b'LONG-NAME', F.ASCII), (b'VALUES', E.UNORM)], prm, role=SET_ROLES[r1], name=b'PSET' if named else None)))
+    if both:
+        recs.append(F.record(True, 5, F.eflr(b'TOOL', [(b'DESCRIPTION', F.ASCII)], [((2, 0, b'T0'), [[b'tool']])], role=SET_ROLES[r2], name=None if named else b'TSET')))
+    data, layout = F.build(recs)
+    with LogicalFile.LogicalIndex(SymFile(data)) as li:
+        mark.hit()
+        if len(li) != 1:
+            return False
+        lf = li.logical_files[0]
+        want = [(b'FILE-HEADER', None), (b'ORIGIN', None), (b'PARAMETER', b'PSET' if named else None)] + ([(b'TOOL', None if named else b'TSET')] if both else [])
+        got = [(pe.eflr.set.type, pe.eflr.set.name if pe.eflr.set.name else None) for pe in lf.eflrs]
+        if got != want:
+            return False
+        t = lf.eflrs[2].eflr
+        if [(o.name.O, o.name.C, o.name.I) for o in t.objects] != [(2, 0, b'P0'), (2, 0, b'P1')]:
+            return False
+        if [[(a.label, a.count, a.rep_code, a.value) for a in o.attrs] for o in t.objects] != \
+                [[(b'LONG-NAME', 1, F.ASCII, [b'param <&>']), (b'VALUES', 2, E.UNORM, [300, 301])], [(b'LONG-NAME', 1, F.ASCII, [b'x']), (b'VALUES', 1, E.UNORM, [7])]]:
+            return False
+        if both:
+            t = lf.eflrs[3].eflr
+            if [[(a.label, a.value) for a in o.attrs] for o in t.objects] != [[(b'DESCRIPTION', [b'tool'])]]:
+                return False
+    return True
+
+
+def set_kinds(r1: int, r2: int, named: bool, both: bool) -> bool:
+    """
+    pre: 0 <= r1 <= 2 and 0 <= r2 <= 2
+    post: _
+    """
+    r1, r2, named, both = mark.pick(r1, 0, 2), mark.pick(r2, 0, 2), mark.pickb(named), mark.pickb(both)
+    with mark.untraced():
+        return _set_kinds(r1, r2, named, both)
